@@ -98,20 +98,33 @@ def _decoder_table(ctx, body, rule, name):
     if sw is None:
         ctx.missing(rule, "%s: switch on the address-type byte" % name)
         return None
-    ip = cfg.ipdom().get(sw.block)
     reads = calls_norm(body, "::read_exact")
+    # what follows the match is what every accepting arm reaches; an arm's own part is the rest of what it reaches.  Reads are
+    # put in execution order by their depth in the dominator tree (block numbers say nothing once a helper has been spliced in)
+    idom = cfg.idom()
+
+    def depth(b):
+        d, seen = 0, set()
+        while b in idom and idom[b] != b and b not in seen and idom[b] is not None:
+            seen.add(b)
+            b = idom[b]
+            d += 1
+        return d
+    reach_of = {s: cfg.reach([s]) for s in sw.by_succ}
+    accepting = [s for s, vals in sw.by_succ.items() if any(isinstance(v, int) for v in vals) and any(r.bb in reach_of[s] for r in reads)]
+    common = set.intersection(*[reach_of[s] for s in accepting]) if accepting else set()
     table = {}
     for s, vals in sw.by_succ.items():
-        region = _arm_region(cfg, s, ip)
+        region = reach_of[s] - common
         widths = []
-        for r in sorted(reads, key=lambda r: r.bb):
+        for r in sorted(reads, key=lambda r: (depth(r.bb), r.bb)):
             if r.bb in region and len(r.args) > 1:
                 widths.append(_buf_len_of(body, o, o.of_operand(r.args[1])))
         for v in vals:
             table[v] = widths
     after = []
-    for r in sorted(reads, key=lambda r: r.bb):
-        if ip is not None and ip != -1 and cfg.dominates(ip, r.bb) and len(r.args) > 1:
+    for r in sorted(reads, key=lambda r: (depth(r.bb), r.bb)):
+        if r.bb in common and len(r.args) > 1:
             after.append(_buf_len_of(body, o, o.of_operand(r.args[1])))
     return table, after, sw
 
